@@ -6,12 +6,18 @@ args = sys.argv[1:]
 seed = '0'; tier = 'quick'
 if '--seed' in args: i = args.index('--seed'); seed = args[i + 1]; del args[i:i + 2]
 if '--tier' in args: i = args.index('--tier'); tier = args[i + 1]; del args[i:i + 2]
+base = None
+if '--base' in args: i = args.index('--base'); base = args[i + 1]; del args[i:i + 2]   # take the files the patch touches from this commit first
 patch = os.path.abspath(args[0]); props = args[1:]
 st = subprocess.run(['git', '-C', '/repo', 'status', '--porcelain', '--untracked-files=no'], capture_output=True, text=True).stdout.strip()
 if st:
     sys.exit('/repo has uncommitted changes:\n' + st)
+if base:
+    files = re.findall(r'^\+\+\+ b/(\S+)', open(patch).read(), re.M)
+    subprocess.run(['git', '-C', '/repo', 'checkout', base, '--'] + files, check=True)
 r = subprocess.run(['git', '-C', '/repo', 'apply', patch], capture_output=True, text=True)
 if r.returncode:
+    subprocess.run(['git', '-C', '/repo', 'checkout', 'HEAD', '--', '.'], check=True)
     sys.exit('patch does not apply: ' + r.stderr)
 res = {}
 try:
@@ -27,5 +33,5 @@ try:
         if o.returncode == 2:
             print('     ' + '\n     '.join(l for l in o.stdout.splitlines() if 'INCONCL' in l or 'Error' in l)[:600])
 finally:
-    subprocess.run(['git', '-C', '/repo', 'checkout', '--', '.'], check=True)
+    subprocess.run(['git', '-C', '/repo', 'checkout', 'HEAD', '--', '.'], check=True)
 print('DETECTED' if any(rc == 1 for rc, _ in res.values()) else 'MISSED')
